@@ -240,6 +240,44 @@ def collect(vh: Vh) -> Dict[str, Any]:
     views = []
     for cls in (V.SC62015RomView, V.SC62015FullView):
         views.append({"name": cls.name, "segments": [{"name": s.name, "start": int(s.start), "length": int(s.length)} for s in cls.SEGMENTS]})
+    # ... and what init() actually REGISTERS (recorded add_auto_segment calls) for raw files of several lengths: the declared
+    # table is only the default, a view may compute its segments from the file it is given
+    import contextlib, io, types
+    saved_arch = V.Architecture
+    V.Architecture = {"SC62015": types.SimpleNamespace(standalone_platform=None)}
+    try:
+        for cls in (V.SC62015RomView, V.SC62015FullView):
+            for n in (0x8000, 0x20000, 0x20001, 0x40000, 0x80000, 0x100000, 0x100100):
+                segs: List[Dict[str, Any]] = []
+
+                class Stub:
+                    length = n
+                    file = types.SimpleNamespace(filename="image.bin")
+
+                    def __len__(self):
+                        return n
+
+                    def read(self, a, k):
+                        return bytes(k)
+
+                class Rec(cls):          # every other BinaryView service is a no-op
+                    def __getattr__(self, name):
+                        if name.startswith("__"):
+                            raise AttributeError(name)
+                        return lambda *a, **k: 0
+
+                    def add_auto_segment(self, start, length, off, dlen, flags, _segs=segs):
+                        _segs.append({"name": f"segment {len(_segs)}", "start": int(start), "length": int(length)})
+
+                    def add_auto_section(self, name, start, length, *a, _segs=segs, **k):
+                        for sg in _segs:          # a segment takes the name of the section registered over the same range
+                            if sg["start"] == int(start) and sg["length"] == int(length):
+                                sg["name"] = str(name)
+                with contextlib.redirect_stdout(io.StringIO()):
+                    Rec(Stub()).init()
+                views.append({"name": f"{cls.name} as registered by init() for a raw file of {n:#x} bytes", "segments": segs})
+    finally:
+        V.Architecture = saved_arch
     return {"opcodes": {"py": py_rows(), "rs": rs_rows(dump)}, "pre": {"py": py_pre, "rs": rs_pre},
             "single": {"py": sorted(O.SINGLE_ADDRESSABLE_OPCODES), "rs": rs_single}, "groups": groups, "views": views,
             "address_space_size": int(K.ADDRESS_SPACE_SIZE), "internal_memory_start": int(K.INTERNAL_MEMORY_START),
